@@ -890,3 +890,21 @@ Proof.
     change (last (x :: y :: planes) []) with (last (y :: planes) []).
     apply (IH n); [exact Hnth| cbn in *; lia].
 Qed.
+
+(* ================================================================== 16-bit samples *)
+Lemma dec16_np_enc v : byte v -> dec16_np v v = v.
+Proof.
+  unfold byte, dec16_np. intro H. replace (v * 256 + v) with (v * 257) by lia.
+  apply Z.div_mul. lia.
+Qed.
+
+Lemma dec16_pil_enc v : byte v -> dec16_pil v v = v.
+Proof.
+  unfold byte, dec16_pil. intro H. rewrite Z.div_add_l by lia. rewrite Z.div_small by lia. lia.
+Qed.
+
+Lemma enc_plane_16_length p : zlen (enc_plane 16 p) = 2 * zlen p.
+Proof.
+  unfold zlen, enc_plane. induction p; cbn [flat_map]; [reflexivity|].
+  rewrite app_length. cbn [enc_sample Z.eqb Pos.eqb length] in *. lia.
+Qed.
